@@ -593,6 +593,18 @@ class StartStopSuite(SystemSuite):
                         pl = [] if udi else [(g, rng.randrange(n), False, "Go")]
                         yield self.make(rng, stage=stage, n=n, start_index=si, udi=udi, sar=True, placements=pl,
                                         nrows=22, method="3.1.5")
+        # the touch COMES ROUND (plain hunt on four: eight changes), That's all is called in the row before rounds or in
+        # the rounds row itself, and a second Go is called in the closing rounds: the method starts again
+        for n in (4, 5):
+            for si in (0, 1):
+                for udi in (False, True):
+                    for ta in range(7, 13):
+                        for go2 in range(ta + 1, ta + 5):
+                            if rng.random() < (0.3 if tier == "quick" else 1.0):
+                                pl = ([] if udi else [(rng.randint(0, 1), rng.randrange(n), False, "Go")]) + \
+                                     [(ta, rng.randrange(n), False, "That's all"), (go2, rng.randrange(n), rng.random() < 0.3, "Go")]
+                                yield self.make(rng, stage=4, n=n, start_index=si, udi=udi, sar=False, placements=pl,
+                                                nrows=22, method="x1x1x1x1")
         # custom start rows and up-down-in with a backstroke start
         for _ in range(10 if tier == "quick" else 60):
             stage = rng.choice([4, 6])
@@ -634,7 +646,8 @@ class StartStopSuite(SystemSuite):
         sp_hand = spec["start_index"] % 2 == 0
         # method rows from the textbook reading of the notation
         from suites.gens import textbook_change, apply_change
-        pn = {"x1x1,2": [[], [1], [], [1], [], [1], [], [2]], "3.1": [[3], [1]], "3.1.5": [[3], [1], [5]]}[spec["method"]]
+        pn = {"x1x1,2": [[], [1], [], [1], [], [1], [], [2]], "3.1": [[3], [1]], "3.1.5": [[3], [1], [5]],
+              "x1x1x1x1": [[], [1]] * 4}[spec["method"]]
         start_row = opening[:max(stage, len(custom or ""))] if custom else rounds[:stage]
         mrows, row = [], list(start_row)
         for i in range(orc["nrows"] + 2):
@@ -967,6 +980,17 @@ class GateSuite(SystemSuite):
             n0 = rng.randint(4, 16)
             sizes = [rng.randint(4, 16) for _ in range(rng.randint(0, 3))]
             yield self.make(rng, spec=spec, n0=n0, sizes=sizes, first_touch=rng.random() < 0.7)
+        for _ in range(40 if tier == "quick" else 300):     # a custom start row that happens to BE rounds (or rounds with
+            stage = rng.randint(2, 10)                      # one swap), as long as or longer than the tower
+            k = rng.randint(stage, 16)
+            row = list(gens.BELL_NAMES[:k])
+            if rng.random() < 0.3 and k >= 2:
+                i = rng.randrange(k - 1)
+                row[i], row[i + 1] = row[i + 1], row[i]
+            spec = {"kind": "plain_hunt", "stage": stage, "custom": "".join(row)}
+            n0 = max(4, min(16, k + rng.choice([-3, -2, -1, -1, 0, 1])))
+            sizes = [max(4, min(16, k + rng.choice([-2, -1, 0, 1, 2]))) for _ in range(rng.randint(0, 2))]
+            yield self.make(rng, spec=spec, n0=n0, sizes=sizes, first_touch=rng.random() < 0.7)
         for _ in range(60 if tier == "quick" else 600):     # server mode: queued generators of every stage
             n0 = rng.randint(4, 12)
             sizes = [rng.randint(4, 12) for _ in range(rng.randint(0, 3))]
@@ -1282,6 +1306,12 @@ class CompositionSuite(SystemSuite):
         c = {k: v for k, v in case.items() if k != "oracle"}
         return sim.run_scenario(c, gens.build_impl_generator)
 
+    def oracle_C10(self, case, out):
+        """a composition rung to its end and beyond - whether or not anybody says That's all - never kills the loop"""
+        if "trace" in out and out["outcome"][0] == "crashed":
+            return f"Wheatley's main loop was killed by {out['outcome'][2]} at {out['outcome'][3]} while ringing a composition"
+        return None
+
     def oracle_C16(self, case, out):
         if "trace" not in out:
             return None
@@ -1552,6 +1582,49 @@ def wait_session_two(rng):
             "events": sorted_events(evs), "oracle": {"humans": sorted(humans), "n": n, "look2": fstr(look2)}}
 
 
+def wait_session_up_wrong(rng):
+    """A human's bell has been left at BACKSTROKE when Look to is called (a stray blow after the last touch, nobody set
+    the bells at hand).  The human pulls twice for the opening handstroke - the first pull only brings the bell back to
+    hand - and then rings in step but late, so that Wheatley has to hold up for every one of that bell's blows."""
+    n = rng.choice([4, 5, 6, 8])
+    spec = {"kind": "plain_hunt", "stage": n, "custom": None}
+    nrows = rng.choice([5, 6, 8])
+    rows = probe_rows(spec, n, nrows)
+    h = rng.randint(2, n)
+    others = set(rng.sample([b for b in range(2, n + 1) if b != h], rng.randint(0, max(0, n - 3))))
+    humans = {h} | others
+    peal = rng.choice([150, 180])
+    iv = blow_interval(peal, n)
+    look_to = Fraction(rng.randint(15, 40), 100) + Fraction(1, 1000)
+    start = look_to + 3
+    state = [True] * n
+    state[h - 1] = False
+    evs = [ev(0, "global", state), ev(Fraction(3, 100), "user_entered", 11, "Alice")]
+    for b in sorted(humans):
+        evs.append(ev(Fraction(5, 100) + Fraction(b, 10000), "assign", b, 11))
+    evs.append(ev(look_to, "call", "Look to"))
+    shift = Fraction(0)
+    for r, row in enumerate(rows):
+        for p, bell in enumerate(row):
+            if bell not in humans:
+                continue
+            t = start + shift + iv * (r * n + p + (r // 2))
+            if bell == h:
+                if r == 0:
+                    evs.append(ev(t - Fraction(rng.randint(200, 400), 1000), "ring", bell))    # the pull that sets the bell
+                late = Fraction(rng.choice([300, 700, 1500]), 1000) + Fraction(rng.randint(1, 99), 10 ** 5)
+                t += late
+                shift += late
+            else:
+                t -= Fraction(5, 1000)
+            evs.append(ev(t + Fraction(rng.randint(1, 999), 10 ** 7), "ring", bell))
+    horizon = start + shift + iv * (nrows * n + nrows // 2) + Fraction(1, 3000)
+    rh = {"kind": "wait", "inertia": 1.0, "peal_speed": peal, "gap": 1.0, "max": 15, "initial_inertia": 1.0}
+    return {"gen": spec, "udi": True, "stop_at_rounds": False, "call_comps": True, "name": None, "instance": None,
+            "rhythm": rh, "delta": fstr(rng.choice([0, Fraction(1, 1000)])), "horizon": fstr(horizon),
+            "events": sorted_events(evs), "oracle": {"humans": sorted(humans), "n": n, "extra": {str(h): 1}}}
+
+
 class WaitSuite(SystemSuite):
     name = "wait_for_humans"
     fuel = 80000
@@ -1562,6 +1635,8 @@ class WaitSuite(SystemSuite):
             yield wait_session(rng, tier)
         for _ in range(30 if tier == "quick" else 300):
             yield wait_session_two(rng)
+        for _ in range(24 if tier == "quick" else 240):
+            yield wait_session_up_wrong(rng)
 
     def to_coq(self, case, out):
         c = {k: v for k, v in case.items() if k not in ("oracle", "oracle_only")}
@@ -1578,14 +1653,19 @@ class WaitSuite(SystemSuite):
         all_rings = sorted((Fraction(t), e[1]) for t, e in case["events"] if e[0] == "ring")
         look2 = Fraction(case["oracle"]["look2"]) if case["oracle"].get("look2") else None
         for (lo, hi) in ([(Fraction(-1), look2), (look2, Fraction(10 ** 12))] if look2 is not None else [(Fraction(-1), Fraction(10 ** 12))]):
-            msg = self._never_ahead(out, humans, [(t, b) for (t, b) in all_rings if lo <= t < hi], lo, hi)
+            msg = self._never_ahead(out, humans, [(t, b) for (t, b) in all_rings if lo <= t < hi], lo, hi,
+                                    {int(k): v for k, v in case["oracle"].get("extra", {}).items()})
             if msg:
                 return ("second touch: " if look2 is not None and lo == look2 else "") + msg
         return None
 
     @staticmethod
-    def _never_ahead(out, humans, rings, lo, hi):
-        """strike counts within one touch (its rows are numbered from 0 and only blows struck in it count)"""
+    def _never_ahead(out, humans, rings, lo, hi, extra=None):
+        """strike counts within one touch (its rows are numbered from 0 and only blows struck in it count); `extra`: pulls
+        of a bell that only brought it back to handstroke and are no blow of any row"""
+        for h, k in (extra or {}).items():          # (the first k pulls of h are not blows)
+            idx = [i for i, (_t, b) in enumerate(rings) if b == h][:k]
+            rings = [x for i, x in enumerate(rings) if i not in idx]
         place_of = {}
         for it in out["trace"]:
             if it[1] == "r_wait" and lo <= Fraction(it[0]) < hi:
@@ -1610,6 +1690,78 @@ class WaitSuite(SystemSuite):
     def oracle_C10(self, case, out):
         if "trace" in out and out["outcome"][0] == "crashed":
             return f"main loop died: {out['outcome'][1:3]}"
+        return None
+
+
+# ============================================================================= C01/C17: resized DURING a touch
+class ResizeSuite(SystemSuite):
+    """The tower is resized while a touch is being rung - never below the stage - and the touch goes on: method rows,
+    That's all, closing rounds.  Every row BEGUN after the change has one place for each bell of the new tower, the
+    bells beyond the stage covering in order."""
+    name = "resize_mid_touch"
+    coq_cap = {"quick": 60, "thorough": 400}
+
+    def scenarios(self, rng, tier):
+        for _ in range(90 if tier == "quick" else 900):
+            stage = rng.randint(3, 10)
+            n0 = min(16, stage + rng.choice([0, 0, 1, 2]))
+            n1 = min(16, max(stage, n0 + rng.choice([-2, -1, 1, 2, 3])))
+            if n1 == n0:
+                n1 = n0 + 1
+            spec = {"kind": "plain_hunt", "stage": stage, "custom": None}
+            dur = Fraction(1, 8)
+            look_to = Fraction(rng.randint(12, 40), 100) + Fraction(1, 1000)
+            sch = Schedule(look_to, dur)
+            udi = rng.random() < 0.6
+            evs = [ev(0, "global", [True] * n0), ev(look_to, "call", "Look to")]
+            if not udi:
+                evs.append(ev(sch.wait(rng.randrange(n0), Fraction(1, 3)), "call", "Go"))
+            j_size = rng.randint(1, 5) * n0 + rng.randrange(n0)
+            t_size = sch.wait(j_size, Fraction(rng.randint(1, 96), 97)) if rng.random() < 0.7 else sch.pause(j_size, Fraction(rng.randint(3, 94), 97))
+            evs.append(ev(t_size, "size", n1))
+            closing = rng.choice(["thats_all", "thats_all", "none", "rounds"])
+            j_call = j_size + rng.randint(1, 3 * n1)
+            if closing == "thats_all":
+                evs.append(ev(sch.wait(j_call, Fraction(1, 3)), "call", "That's all"))
+            elif closing == "rounds":
+                evs.append(ev(sch.wait(j_call, Fraction(1, 3)), "call", "Rounds"))
+            horizon = sch.end_of(j_call + 5 * n1) + Fraction(1, 3000)
+            yield {"gen": spec, "udi": udi, "stop_at_rounds": False, "call_comps": True, "name": None, "instance": None,
+                   "rhythm": {"kind": "scripted", "durs": [fstr(dur)] * 600}, "delta": "0", "horizon": fstr(horizon),
+                   "events": sorted_events(evs),
+                   "oracle": {"n0": n0, "n1": n1, "stage": stage, "t_size": fstr(t_size), "closing": closing}}
+
+    def _rows(self, case, out):
+        """(row number, bells, size of the tower the row was begun on) for every row wholly before or begun after the change"""
+        if "trace" not in out:
+            return
+        o = case["oracle"]
+        ts = Fraction(o["t_size"])
+        rows = rows_rung(out)
+        for i, (r, bells, t0) in enumerate(rows[:-1]):       # (the last row is cut by the horizon)
+            if t0 > ts:
+                yield r, bells, o["n1"]
+            elif rows[i + 1][2] <= ts:
+                yield r, bells, o["n0"]
+
+    def oracle_C01(self, case, out):
+        for r, bells, n in self._rows(case, out):
+            if sorted(bells) != list(range(1, n + 1)):
+                o = case["oracle"]
+                return (f"tower resized from {o['n0']} to {o['n1']} during the touch: row {r} = {bells} is not a complete row "
+                        f"of the {n} bells of the tower it was begun on")
+        return None
+
+    def oracle_C17(self, case, out):
+        st = case["oracle"]["stage"]
+        for r, bells, n in self._rows(case, out):
+            if len(bells) == n and bells[st:] != list(range(st + 1, n + 1)):
+                return f"row {r} = {bells}: the bells beyond the stage ({st}) do not cover in order on the tower of {n}"
+        return None
+
+    def oracle_C10(self, case, out):
+        if "trace" in out and out["outcome"][0] == "crashed":
+            return f"Wheatley's main loop was killed by {out['outcome'][2]} at {out['outcome'][3]}"
         return None
 
 
